@@ -15,7 +15,9 @@ def shim_path():
     src = os.path.join(VERIF, "native", "shim.c")
     if not os.path.exists(so) or os.path.getmtime(so) < os.path.getmtime(src):
         os.makedirs(BUILD_DIR, exist_ok=True)
-        subprocess.run(["gcc", "-O1", "-shared", "-fPIC", "-o", so, src, "-ldl"], check=True)
+        tmp = f"{so}.{os.getpid()}.tmp"  # never let a loader see a half-written file
+        subprocess.run(["gcc", "-O1", "-shared", "-fPIC", "-o", tmp, src, "-ldl"], check=True)
+        os.replace(tmp, so)
     return so
 
 
